@@ -103,7 +103,7 @@ Proof.
   pose proof (step_keeps_modes c w) as M.
   pose proof (step_keeps_tls_state c w) as T.
   assert (Ho : w_open (snd (step w c)) = true) by (destruct Hi as ((Ho & _) & _); exact Ho).
-  destruct c; try contradiction; destruct M as (M1 & M2); destruct (T Ho) as (_ & _ & _ & _ & T6);
+  destruct c; try contradiction; destruct M as (M1 & M2); destruct (T Ho) as (_ & _ & _ & _ & T6 & _);
     (split; [split; [exact Hi|exact D]|]; unfold kit_of; rewrite M1, M2, K1; f_equal; unfold adv_cmd, local_ip; rewrite M2, T6; reflexivity).
 Qed.
 
